@@ -1,10 +1,15 @@
 #!/bin/bash
 # MANIFEST.setup_cmd: build everything from files on disk, offline.
-set -e
+# Work in progress on one property must not block the others: both builds keep going past a failing
+# file/binary; every check rebuilds exactly what it needs (and reports a broken proof as a violation).
 cd "$(dirname "$0")/.."
 export CARGO_NET_OFFLINE=true
 mkdir -p .cache evidence replays
 bash tools/mkcoqproject.sh
-( cd coq && timeout 7200 make -j16 -f Makefile.coq > ../.cache/coq_build.log 2>&1 ) || { tail -50 .cache/coq_build.log; echo "coq build failed"; exit 1; }
-( cd harness && CARGO_TARGET_DIR=$PWD/../.cache/target timeout 7200 cargo build --offline --bins > ../.cache/harness_build.log 2>&1 ) || { tail -50 .cache/harness_build.log; echo "harness build failed"; exit 1; }
+( cd coq && timeout 7200 make -k -j16 -f Makefile.coq > ../.cache/coq_build.log 2>&1 ) || { grep -E "^Error|Error:" -B2 .cache/coq_build.log | tail -30; echo "setup: some Coq files failed to build (see .cache/coq_build.log)"; }
+( cd harness && CARGO_TARGET_DIR=$PWD/../.cache/target timeout 7200 cargo build --offline --lib > ../.cache/harness_build.log 2>&1 ) || { tail -50 .cache/harness_build.log; echo "harness lib build failed"; exit 1; }
+for b in harness/src/bin/*.rs; do
+  n=$(basename "$b" .rs)
+  ( cd harness && CARGO_TARGET_DIR=$PWD/../.cache/target timeout 3600 cargo build --offline --bin "$n" >> ../.cache/harness_build.log 2>&1 ) || echo "setup: harness family $n failed to build"
+done
 echo "setup ok"
